@@ -1,4 +1,5 @@
 import UmProofs.BrokerResSkel
+import UmProofs.BrokerOrdered
 /-!
 # C12 — what the allocator hands out: every proxy of every allocated pair comes from the free
 healthy pool, no proxy is handed out twice, the two halves of a pair are on different hosts.
@@ -202,19 +203,34 @@ theorem proxyResourceToChunkStore_skel {arr : List (ProxyRes × ProxyRes)} {b : 
     cases h
     simp [List.map_map, Function.comp_def, mkChunk, Chunk.skel]
 
-/-- the chunks an allocation appends: built from distinct free healthy proxies, two hosts each -/
+/-- what the allocator of either mode (`allocChunks`) returns; the two-hosts clause belongs to
+the normal mode only (ordered mode allocates by index, whatever the hosts) -/
+theorem allocChunks_ok {s : Store} {n first : Nat} {choice : List (String × String)}
+    {arr : List (ProxyRes × ProxyRes)} (h : allocChunks s n first choice = R.ok arr) :
+    arr.length = (n + 1) / 2 ∧
+    (∀ pr ∈ arr, pr.1 ∈ s.freeProxies ∧ pr.2 ∈ s.freeProxies ∧ (s.ordered = false → pr.1.host ≠ pr.2.host)) ∧
+    (arr.flatMap fun pr => [pr.1.addr, pr.2.addr]).Nodup := by
+  rcases Ord.allocChunks_cases h with ⟨ho, h⟩ | ⟨ho, h⟩
+  · obtain ⟨hl, hp, hn⟩ := generateFreeChunks_ok h
+    exact ⟨hl, fun pr hpr => ⟨(hp pr hpr).1, (hp pr hpr).2.1, fun _ => (hp pr hpr).2.2⟩, hn⟩
+  · obtain ⟨hev, hl, hp, hn, _, _⟩ := Ord.generateFreeChunksOrdered_ok h
+    refine ⟨by omega, fun pr hpr => ⟨(hp pr hpr).1, (hp pr hpr).2, fun hf => ?_⟩, hn⟩
+    rw [ho] at hf; cases hf
+
+/-- the chunks an allocation appends: built from distinct free healthy proxies; in normal mode
+(not in ordered mode) two hosts each -/
 structure NewChunks (s : Store) (new : List Chunk) : Prop where
   nodup : (chunkAddrs new).Nodup
   fromPool : ∀ ch ∈ new, ∃ p0 ∈ s.freeProxies, ∃ p1 ∈ s.freeProxies,
     ch.proxy0 = p0.addr ∧ ch.host0 = p0.host ∧ ch.node0 = p0.node0 ∧ ch.node1 = p0.node1 ∧
     ch.proxy1 = p1.addr ∧ ch.host1 = p1.host ∧ ch.node2 = p1.node0 ∧ ch.node3 = p1.node1 ∧
-    ch.host0 ≠ ch.host1
+    (s.ordered = false → ch.host0 ≠ ch.host1)
 
-theorem newChunks_of_alloc {s : Store} {n : Nat} {choice : List (String × String)}
+theorem newChunks_of_alloc {s : Store} {n first : Nat} {choice : List (String × String)}
     {arr : List (ProxyRes × ProxyRes)} {b : Bool} {chunks : List Chunk}
-    (h1 : generateFreeChunks s n choice = R.ok arr) (h2 : proxyResourceToChunkStore arr b = R.ok chunks) :
+    (h1 : allocChunks s n first choice = R.ok arr) (h2 : proxyResourceToChunkStore arr b = R.ok chunks) :
     NewChunks s chunks ∧ chunks.length = (n + 1) / 2 := by
-  obtain ⟨hl, hp, hn⟩ := generateFreeChunks_ok h1
+  obtain ⟨hl, hp, hn⟩ := allocChunks_ok h1
   have hs := proxyResourceToChunkStore_skel h2
   have hs' : SameSkel chunks (arr.map fun pr => mkChunk pr.1 pr.2 none none) := by
     simp only [SameSkel, hs, List.map_map, Function.comp_def]
